@@ -371,7 +371,7 @@ def _gen_shard(item):
 def run(report):
     quick = report.tier == "quick"
     report.rule = RULE
-    switches = sorted(open_switches())
+    switches = sorted(open_switches('C08'))
     for s in switches:
         report.exclusions[s] = "open finding: shape not injected / not generated"
     ns = env.NPROC * 2
